@@ -198,10 +198,31 @@ func init() {
 				Run: func(c *h.Ctx, idx uint64, r *h.Rand) {
 					dfi := dfs[r.Intn(len(dfs))]
 					in := genLine(r, dfi.geo)
+					if dfi.name != "geo.Distance" && r.P(1, 25) {
+						// a line along the antimeridian: every longitude exactly 180 or -180 (both spellings), one latitude or
+						// several. (Not with geo.Distance: it measures 180 against -180 as zero, so such a line of one latitude
+						// has distinct vertices and no length - a case none of the property's clauses describes.)
+						in = in[:0]
+						lat := float64(r.Range(-80, 80))
+						for k := r.Range(2, 5); k > 0; k-- {
+							if r.P(1, 3) {
+								lat = float64(r.Range(-80, 80))
+							}
+							in = append(in, orb.Point{[]float64{-180, 180}[r.Intn(2)], lat})
+						}
+						c.Count("lines_along_the_antimeridian", 1)
+					}
 					if r.P(1, 40) {
 						in = nil
 					}
 					total, _ := c17total(in, dfi.f)
+					if total == 0 && len(in) >= 2 && !allSame(in) {
+						// distinct vertices that the distance function measures as no length at all (180 against -180 on one
+						// parallel with geo.Distance): neither "a line of positive length" nor "a line whose vertices all
+						// coincide" - no clause of the property describes it. Not driven (see DESIGN.md section 11).
+						c.Count("skipped_distinct_vertices_of_zero_measured_length", 1)
+						return
+					}
 					// ---- Resample
 					var n int
 					switch r.Intn(8) {
